@@ -1,5 +1,22 @@
-import Driver.Proto
-/-! C02 handler (not implemented yet). -/
+import Driver.C03
+import ThunderModel.Subscription
+/-! C02 handler: the messages and the client state of a subscription, from the results of its runs. -/
+open Lean TM TM.J
+
 namespace Driver.C02
-def handle : Handler := fun _ => throw "C02: no model yet"
+
+def handle : Handler := fun req => do
+  let op ← str req "op"
+  match op with
+  | "session" =>
+    let rs ← listOf Driver.C03.decJ (← field req "results")
+    let f := (rs.map depth).foldl max 0 + 1
+    let msgs := Sub.messages f .null true rs
+    let fin := Sub.session f .null .null true rs
+    pure <| Json.mkObj [
+      ("messages", Json.arr (msgs.map fun m => match m with | some d => Driver.C03.encJ d | none => Json.mkObj [("none", true)]).toArray),
+      ("final", jExcept (fun (p : J × J) => Json.mkObj [("previous", Driver.C03.encJ p.1), ("client", Driver.C03.encJ p.2)]) fin),
+      ("wf", rs.all Driver.C03.wf)]
+  | _ => throw s!"C02: unknown op {op}"
+
 end Driver.C02
